@@ -15,7 +15,7 @@
 
    Output code of an operation: 0 = Ok(()), 1 = Err(Metadata("Compaction
    target chunk not found ...")) returned from inside the block (no PUT). *)
-From CS Require Import Base.Prelude Base.CasProto Model.Catalog.
+From CS Require Import Base.Prelude Base.CasProto Model.CasFault Model.Catalog.
 From CSGen Require Import Consts.
 
 Definition cat_of (prev : option cat) : cat :=
@@ -31,6 +31,12 @@ Definition cat_max_retries : nat := N.to_nat Consts.MAX_CAS_RETRIES.
 Definition cat_step := step cat_decide cat_extra_gets cat_max_retries.
 Definition cat_run := run cat_decide cat_extra_gets cat_max_retries.
 Definition cat_init (v0 : option cat) (progs : nat -> list cop) : sys cat cop N :=
+  init_sys v0 0%Z progs.
+
+(* the same machine with injected transport faults (Model/CasFault.v): used by
+   the correspondence harness only, no theorem speaks about it *)
+Definition cat_fstep := fstep cat_decide cat_extra_gets cat_max_retries.
+Definition cat_finit (v0 : option cat) (progs : nat -> list cop) : sys cat cop (option N) :=
   init_sys v0 0%Z progs.
 
 (* every path listed in the time index is a key of the chunk map *)
